@@ -1,6 +1,19 @@
-"""./check selftest --smoke | --determinism | --mutants"""
+"""./check selftest --smoke | --determinism | --mutants [--only SUBSTR] [--dir DIR]
+
+--mutants: sensitivity self-test.  For every patch in /verif/mutants (or DIR)
+a scratch worktree of /repo's HEAD is created on /dev/shm, the patch applied,
+the quick check of the property named by the file prefix is run against it
+(VERIF_REPO), the outcome recorded, and the worktree removed.
+"""
+import glob
+import json
+import os
+import shutil
+import subprocess
 import sys
 import time
+
+VERIF = os.path.dirname(os.path.dirname(os.path.abspath(__file__)))
 
 
 def smoke():
@@ -14,11 +27,77 @@ def smoke():
     return 0
 
 
+def run_mutant(patch, tier="quick", prop=None, keep=False):
+    name = os.path.basename(patch)[:-len(".patch")] if patch.endswith(".patch") else os.path.basename(os.path.dirname(patch))
+    prop = prop or name.split("_")[0]
+    wt = f"/dev/shm/verif-mut-{name}-{os.getpid()}"
+    out = f"/dev/shm/verif-mut-out-{name}-{os.getpid()}"
+    subprocess.run(["git", "-C", "/repo", "worktree", "remove", "--force", wt], capture_output=True)
+    shutil.rmtree(wt, ignore_errors=True)
+    r = subprocess.run(["git", "-C", "/repo", "worktree", "add", "-q", "--detach", wt, "HEAD"], capture_output=True, text=True)
+    if r.returncode:
+        return {"mutant": name, "property": prop, "outcome": "setup-failed", "detail": r.stderr[-300:]}
+    try:
+        r = subprocess.run(["git", "-C", wt, "apply", "--whitespace=nowarn", os.path.abspath(patch)], capture_output=True, text=True)
+        if r.returncode:
+            return {"mutant": name, "property": prop, "outcome": "patch-does-not-apply", "detail": r.stderr[-300:]}
+        env = dict(os.environ, VERIF_REPO=wt, VERIF_OUT=out)
+        t0 = time.time()
+        r = subprocess.run([os.path.join(VERIF, "check"), prop, "--tier", tier], env=env, capture_output=True, text=True,
+                           timeout=3600)
+        lines = [l for l in r.stdout.splitlines() if l.startswith(("VIOLATION", "  signature", "HARNESS-ERROR", "OK "))]
+        outcome = {0: "SURVIVED", 1: "killed", 2: "harness-error"}.get(r.returncode, f"exit-{r.returncode}")
+        sigs = [l.strip() for l in lines if l.startswith("  signature")][:4]
+        return {"mutant": name, "property": prop, "outcome": outcome, "wall_s": round(time.time() - t0, 1),
+                "signatures": sigs, "tail": lines[-3:] if outcome != "killed" else []}
+    finally:
+        if not keep:
+            subprocess.run(["git", "-C", "/repo", "worktree", "remove", "--force", wt], capture_output=True)
+            shutil.rmtree(wt, ignore_errors=True)
+            shutil.rmtree(out, ignore_errors=True)
+
+
+def mutants(argv):
+    d = os.path.join(VERIF, "mutants")
+    only = None
+    tier = "quick"
+    for i, a in enumerate(argv):
+        if a == "--only":
+            only = argv[i + 1]
+        if a == "--dir":
+            d = argv[i + 1]
+        if a == "--tier":
+            tier = argv[i + 1]
+    patches = sorted(glob.glob(os.path.join(d, "*.patch")) + glob.glob(os.path.join(d, "*", "patch.diff")))
+    if only:
+        patches = [p for p in patches if only in p]
+    res = []
+    for p in patches:
+        prop = None
+        meta = os.path.join(os.path.dirname(p), "meta.json")
+        if p.endswith("patch.diff") and os.path.exists(meta):
+            prop = json.load(open(meta)).get("property")
+        r = run_mutant(p, tier, prop)
+        res.append(r)
+        print(f"{r['outcome']:>20}  {r['property']}  {r['mutant']}  {r.get('wall_s', '')}s  {r.get('signatures', r.get('detail', ''))}", flush=True)
+    path = os.path.join(VERIF, "evidence", "selftest_mutants.json" if "seeded" not in d else "selftest_seeded.json")
+    prev = []
+    if only and os.path.exists(path):
+        prev = [x for x in json.load(open(path))["results"] if x["mutant"] not in {r["mutant"] for r in res}]
+    with open(path, "w") as f:
+        json.dump({"tier": tier, "results": sorted(prev + res, key=lambda x: x["mutant"])}, f, indent=1)
+    surv = [r["mutant"] for r in res if r["outcome"] != "killed"]
+    print(f"{len(res) - len(surv)}/{len(res)} killed; not killed: {surv}")
+    return 0
+
+
 def main(argv):
     if "--smoke" in argv or not argv:
         return smoke()
     if "--determinism" in argv:
         from checks import selftest_determinism
         return selftest_determinism.main(argv)
+    if "--mutants" in argv:
+        return mutants(argv)
     print("unknown selftest", argv)
     return 2
